@@ -167,6 +167,10 @@ def run_case(seed, T):
     problems = []
     if S.raised or R.raised:
         problems.append('exception escaped the connection handler: %r' % (S.raised + R.raised))
+    if S.no_write_interest or R.no_write_interest:
+        problems.append('unsent bytes wait in the write buffer of a CONNECTED connection while the poller is not asked for '
+                        'writability (first at event #%d): they go out only if the application happens to send again'
+                        % ((S.no_write_interest or R.no_write_interest)[0],))
     good_ids = []
     for f in frames:
         if f[0] != 'msg':
@@ -218,7 +222,10 @@ def run_reconnect_case(seed, T):
     oracle = F.install(T, clock)
     tmo = rng.choice([5, 10, 100, 10 ** 6, 10 ** 6])
     flag = rng.random() < 0.8
-    R = F.Conn(T, clock, oracle, 6, tmo, reconnect=flag)
+    # every connect() gets the descriptor number disconnect() has just closed (what an OS does) or a fresh one; a pure
+    # function of the seed that draws nothing from rng, so the events of a seed are what they were
+    reuse_fd = bool((seed >> 2) & 1)
+    R = F.Conn(T, clock, oracle, 6, tmo, reconnect=flag, reuse_fd=reuse_fd)
     CS = T.CONNECTION_STATE
     streams = {}         # generation -> {'ids', 'data', 'fed', 'bounds'}
     ops = []
@@ -369,6 +376,10 @@ def run_reconnect_case(seed, T):
     problems = []
     if R.raised:
         problems.append('exception escaped the connection handler: %r' % (R.raised,))
+    if R.no_write_interest:
+        problems.append('unsent bytes wait in the write buffer of a CONNECTED connection while the poller is not asked for '
+                        'writability (first at event #%d): they go out only if the application happens to send again'
+                        % (R.no_write_interest[0],))
     by_gen = {}
     closed = set()
     for e in R.log:
@@ -402,7 +413,7 @@ def run_reconnect_case(seed, T):
                             % (last, len(R.c._TcpConnection__readBuffer)))
     else:
         problems.append('harness: could not settle the connection (state %r)' % (R.c.state,))
-    meta = {'seed': seed, 'kind': 'reconnect', 'ops': ops, 'faulty': True, 'reconnect_flag': flag,
+    meta = {'seed': seed, 'kind': 'reconnect', 'ops': ops, 'faulty': True, 'reconnect_flag': flag, 'reuse_fd': reuse_fd,
             'generations': R.gen, 'timeout': tmo,
             'frames': [[g, len(streams[g]['ids']), streams[g]['fed']] for g in sorted(streams)],
             'n_frames': sum(len(x['ids']) for x in streams.values()), 'log': [list(e) for e in R.log][:80]}
@@ -411,7 +422,95 @@ def run_reconnect_case(seed, T):
     return {'R': R, 'table': table, 'meta': meta, 'problems': problems}
 
 
+WF_BASE = 2 ** 40      # seeds from here on run the write-failure / subscription scenario (never a corpus or random seed)
+
+
+def run_wfail_case(seed, T):
+    """The poller subscription under failing writes: one connection, reconnecting callback (mostly), the new socket of
+    every connect() gets the descriptor number just closed (half of the cases) or a fresh one.  Sends that leave bytes
+    buffered, WRITE events whose socket.send fails (-> disconnect -> re-entrant connect) with or without READ, send()
+    while CONNECTING, establishment by a READ or a WRITE event, WRITE events with nothing to write.  At the end the *fair
+    environment* of C13_writer_progress: WRITE events are delivered only while the poller has WRITE for the descriptor,
+    each takes >= 1 byte; the buffer must drain."""
+    rng = random.Random(seed ^ 0x2545f491)
+    clock = F.Clock()
+    oracle = F.install(T, clock)
+    from pysyncobj.poller import POLL_EVENT_TYPE as P
+    flag = rng.random() < 0.85
+    reuse_fd = rng.random() < 0.5
+    R = F.Conn(T, clock, oracle, 6, 10 ** 6, reconnect=flag, reuse_fd=reuse_fd)
+    CS = T.CONNECTION_STATE
+    ops = []
+    sends = 0
+
+    def wants_write():
+        fd = R.c.fileno()
+        sub = R.poller.subs.get(fd) if fd is not None else None
+        return sub is not None and bool(sub[1] & P.WRITE)
+
+    for _ in range(rng.randrange(4, 16)):
+        clock.now += rng.choice([0, 0, 1])
+        state, r = R.c.state, rng.random()
+        if state == CS.DISCONNECTED:
+            R.connect()
+            ops.append('connect')
+        elif state == CS.CONNECTING:
+            if r < 0.4:
+                R.send(gen_msg(rng), rng.choice([[], [('eagain',)], [('acc', 3)], [('acc', 2), ('err',)]]))
+                sends += 1
+                ops.append('send_connecting')
+            else:
+                rd = rng.random() < 0.5
+                R.poll(rd, not rd or rng.random() < 0.5, False, False, gen_sscript(rng, False), [])
+                ops.append('establish')
+        elif r < 0.4:
+            R.send(gen_msg(rng), rng.choice([[('acc', 1), ('eagain',)], [('acc', 5), ('zero',)], [('eagain',)], [('acc', 7)]]))
+            sends += 1
+            ops.append('send')
+        elif r < 0.75:
+            # a WRITE event whose socket.send fails after taking a few bytes (or at once)
+            script = [('acc', rng.choice([1, 4]))] * rng.randrange(0, 2) + [rng.choice([('err',), ('neg',)])]
+            R.poll(rng.random() < 0.4, True, False, False, script, [('eagain',)] if rng.random() < 0.5 else [])
+            ops.append('wpoll_fail')
+        elif r < 0.9:
+            R.poll(rng.random() < 0.3, True, False, False, gen_sscript(rng, False), [])
+            ops.append('wpoll')
+        else:
+            R.poll(True, False, False, False, [], [('eagain',)])
+            ops.append('idle_read')
+    # ---- the fair environment ----
+    if R.c.state == CS.DISCONNECTED:
+        R.connect()
+    if R.c.state == CS.CONNECTING and wants_write():
+        R.poll(False, True, False, False, [], [])
+    left0 = len(R.c._TcpConnection__writeBuffer)
+    n_fair = 0
+    while R.c.state == CS.CONNECTED and wants_write() and n_fair <= left0 + 1:
+        R.poll(False, True, False, False, [('acc', rng.choice([1, 2, 9, 64])), ('eagain',)], [])
+        n_fair += 1
+    ops.append('fair_drain')
+    problems = []
+    if R.raised:
+        problems.append('exception escaped the connection handler: %r' % (R.raised,))
+    if R.no_write_interest:
+        problems.append('unsent bytes wait in the write buffer of a CONNECTED connection while the poller is not asked for '
+                        'writability (first at event #%d): they go out only if the application happens to send again'
+                        % (R.no_write_interest[0],))
+    if R.c.state == CS.CONNECTING:
+        problems.append('a CONNECTING connection is not subscribed for writability: the completion of connect() is never reported')
+    elif R.c.state == CS.CONNECTED and len(R.c._TcpConnection__writeBuffer) > 0:
+        problems.append('%d bytes are still in the write buffer after %d fair WRITE events (WRITE subscribed: %r)'
+                        % (len(R.c._TcpConnection__writeBuffer), n_fair, wants_write()))
+    meta = {'seed': seed, 'kind': 'wfail', 'ops': ops, 'faulty': True, 'reconnect_flag': flag, 'reuse_fd': reuse_fd,
+            'generations': R.gen, 'frames': [[R.gen, sends, n_fair]], 'n_frames': sends}
+    table = dict(oracle.table)
+    F.uninstall(T)
+    return {'R': R, 'table': table, 'meta': meta, 'problems': problems}
+
+
 def run_any(seed, T):
+    if seed >= WF_BASE:
+        return run_wfail_case(seed, T)
     return run_reconnect_case(seed, T) if is_reconnect_seed(seed) else run_case(seed, T)
 
 def _case_worker(args):
@@ -497,8 +596,17 @@ def run_cases(ctx, seeds, label):
             continue
         for op in r['meta']['ops']:
             ctx.count(COMPONENT, op.split(':')[0] if not op.startswith('corrupt') else op)
+        if r['meta'].get('kind') == 'wfail':
+            ctx.count(COMPONENT, 'write_failure_cases')
+            if r['meta'].get('reuse_fd'):
+                ctx.count(COMPONENT, 'write_failure_cases_fd_reused')
+            if r['meta']['generations'] > 1:
+                ctx.count(COMPONENT, 'write_failure_cases_redialled')
+            continue
         if r['meta'].get('kind') == 'reconnect':
             ctx.count(COMPONENT, 'reconnect_cases')
+            if r['meta'].get('reuse_fd'):
+                ctx.count(COMPONENT, 'reconnect_cases_fd_reused')
             ctx.count(COMPONENT, 'generations_%s' % min(r['meta']['generations'], 6))
             continue
         ctx.count(COMPONENT, 'faulty_cases' if r['meta']['faulty'] else 'clean_cases')
@@ -524,11 +632,15 @@ def correspondence(ctx):
     base = ctx.seed * 1000003 % (2 ** 31)
     corpus = corpus_seeds()
     seeds = corpus + [base + i for i in range(n) if base + i not in corpus]
+    seeds += [WF_BASE + base + i for i in range(n // 4)]
     ctx.extra['rule'] = ('cases = random S->R pipe scenarios (sends with scripted partial sends/EAGAIN/zero/errors, fragmented reads, '
                          'timeouts, injected bad frames: negative length, undecodable payload, the D12 replay frame) and, for seeds = 0,1 mod 5, '
                          'reconnect scenarios (one connection through several lifetimes, each with its own stream: read bursts of whole frames + '
                          'a partial frame / 1-3 header bytes ending in EOF, ECONNRESET or SO_ERROR, timeouts, failing sends, ERROR events, '
-                         're-entrant reconnect from onDisconnected or a later connect(), send() and polls while CONNECTING); '
+                         're-entrant reconnect from onDisconnected or a later connect(), send() and polls while CONNECTING) and, for '
+                         'seeds >= 2^40 (a quarter as many), write-failure scenarios (partial sends, WRITE events whose socket.send fails, '
+                         're-entrant reconnect with the descriptor number re-used or fresh, then a fair environment that delivers WRITE '
+                         'events only while WRITE is subscribed); every observation includes the poller subscription of the descriptor; '
                          'non-trivial = at least 2 frames in the pipe and at least one message delivered; distinct by seed')
     all_results = []
     step = 3000
@@ -573,6 +685,46 @@ def known(ctx):
         ctx.violation('negative frame length accepted: delivered %r, state %r (fixed finding FX-C13-1 is back)'
                       % (R.all_delivered, R.c.state),
                       {'kind': 'd12', 'buffer': list(buf)}, found_input=True)
+
+    # FX-C13-3: a send() that leaves bytes in the write buffer (the socket took only a part) asks the poller for
+    # writability; before the fix the rest waited for the next send() (a last big message never arrived)
+    clock = F.Clock()
+    oracle = F.install(T, clock)
+    try:
+        W = F.Conn(T, clock, oracle, 7, 10 ** 6)
+        W.poll(False, True, False, False, [], [])           # writable, nothing to write: interest drops to READ|ERROR
+        W.send({'k': 'x' * 500}, [('acc', 5), ('eagain',)])  # the socket takes 5 bytes
+        left = len(W.c._TcpConnection__writeBuffer)
+        okw = left > 0 and not W.no_write_interest and not W.raised
+        W.poll(False, True, False, False, [('acc', 100000)] * 3, [])
+        okw = okw and len(W.c._TcpConnection__writeBuffer) == 0
+    finally:
+        F.uninstall(T)
+    ctx.monitor['write_interest_witness'] = {'left_after_send': left, 'events_without_write_interest': W.no_write_interest,
+                                             'raised': W.raised}
+    if not okw:
+        ctx.violation('bytes left in the write buffer by send() are not announced to the poller (fixed finding FX-C13-3 is back)',
+                      {'kind': 'write_interest', 'left': left, 'events': W.no_write_interest}, found_input=True)
+
+    # FX-C14-2 (commit 8fba630): a WRITE event whose socket.send fails, reconnecting callback, the new socket gets the
+    # descriptor number just closed: the handler must not re-subscribe that number with READ|ERROR
+    clock = F.Clock()
+    oracle = F.install(T, clock)
+    try:
+        from pysyncobj.poller import POLL_EVENT_TYPE as P
+        V = F.Conn(T, clock, oracle, 8, 10 ** 6, reconnect=True, reuse_fd=True)
+        V.send({'k': 'x' * 300}, [('acc', 5), ('eagain',)])
+        V.poll(False, True, False, False, [('err',)], [])
+        sub = V.poller.subs.get(V.c.fileno())
+        okv = V.c.state == T.CONNECTION_STATE.CONNECTING and sub is not None and sub[1] == (P.READ | P.WRITE | P.ERROR) \
+            and len(V.poller.subs) == 1 and not V.raised
+    finally:
+        F.uninstall(T)
+    ctx.monitor['redial_subscription_witness'] = {'state': V.c.state, 'subscriptions': {str(k): v[1] for k, v in V.poller.subs.items()},
+                                                  'raised': V.raised}
+    if not okv:
+        ctx.violation('after a failed write and a re-entrant connect() the new socket is not subscribed with READ|WRITE|ERROR '
+                      '(fixed finding FX-C14-2 is back)', {'kind': 'redial_subscription'}, found_input=True)
 
 
 def search(ctx):
